@@ -37,6 +37,22 @@ CHECKS = {
         "Trusted: refsem containment (self-tested against brute force); DESIGN section 3 packet model.",
         "DESIGN.md 4/C03",
     ),
+    "C04": (
+        "exploration",
+        "complete enumeration of ACL programs (ordered lists with repetition over a 16-item "
+        "alphabet) x {flat, grouped} x {unnumbered, numbered} x skip; real delete_shadow on each, "
+        "checked by exact cover witnesses and exact first-match equivalence",
+        "Every list of length <=3 (quick) / <=4 (thorough) over 16 items (nested permits, denies "
+        "between, log-only twins, keyword-less protocols, group covered member-wise / only by the "
+        "union, remarks, headings) and one element longer over the 10 items that can shadow each "
+        "other: report == shading() just before, second call empty and text-stable, result is a "
+        "subsequence with only ACEs removed, each removed ACE exactly covered by an earlier same-"
+        "action ACE of the original, first-match function identical on every cell of the atom "
+        "product, block names/membership kept.",
+        "Trusted: refsem equivalence (self-tested against brute force). Lists whose grouping "
+        "merges blocks by a repeated heading are left to C15.",
+        "DESIGN.md 4/C04",
+    ),
     "C05": (
         "model_checking",
         "complete enumeration of wildcard masks per shape class against a bit-level oracle, plus "
